@@ -2,10 +2,13 @@ package main
 
 import (
 	"fmt"
+	"math/big"
 	"os"
 	"path/filepath"
 	"strings"
 	"time"
+
+	"github.com/shopspring/decimal"
 )
 
 func init() { runners["C02"] = runC02 }
@@ -187,6 +190,9 @@ func runC02(c *Ctx) {
 	}
 	if on("shared") {
 		runC02Shared(c)
+	}
+	if on("magnitude") {
+		runC02Magnitude(c)
 	}
 	if !on("balance") {
 		return
@@ -1071,5 +1077,276 @@ func runC02Shared(c *Ctx) {
 				c.Monitor(stream, sc.Idx, "report_equals_ledger", sc.Input(ru), ok, detail)
 			}
 		}, "balance-spec", sc.F.Wire(today()), sc.J.Wire())
+	}
+}
+
+// ---------------------------------------------------------------- stream magnitude: quantities of every size
+//
+// The streams above write quantities of at most a dozen digits.  A cell of the report is the EXACT decimal sum of the
+// quantities written in the journal, whatever their size: the real code keeps arbitrary-precision decimals, and so does the
+// model (exact rationals).  Here small journals carry literals of 15-25 (sometimes up to 40) digits in total: values at and
+// around 2^31, 2^32, 2^53, 2^63, 2^64, 10^18, 10^19 (+-0, 1, 2, some hundreds), random digit strings of a given total length
+// (18 / 19 / 20 digits most often, high leading digits), runs of one digit, each with the point at any position (none, one or
+// two decimals, many decimals, "0." in front), with leading zeros, negative; tiny quantities (10-30 zeros after the point);
+// ordinary quantities next to them, so that sums mix sizes.  Several bookings hit the same (account, commodity), some
+// transactions book a quantity and its negative, a third of the journals assert the exact running totals of their A/L accounts
+// (assertion literals of the same sizes).  Flags: the whole space of `knut balance`.
+// (Seeded change C02-k gave Decimal.Parse an int64 fast path for literals of up to 19 digits and routed posting.Create through
+// it: 19-digit literals above 2^63-1 wrapped silently to negative numbers.)
+//   compare  balance               real outcome against the pipeline model (quantities as exact rationals)
+//   monitor  report_equals_ledger  real outcome against the rendering of Spec.ledgerEntries: every cell is the exact sum
+
+var c02MagBounds = []string{"2147483647", "2147483648", "4294967295", "4294967296", "9007199254740992", "9007199254740993",
+	"999999999999999999", "1000000000000000000", "9223372036854775807", "9223372036854775807", "9223372036854775808", "9223372036854775808",
+	"9999999999999999999", "10000000000000000000", "18446744073709551615", "18446744073709551616", "99999999999999999999",
+	"340282366920938463463374607431768211455"}
+
+// c02MagDigits draws the digit string of a literal (no sign, no point, no leading zero) and the name of its class.
+func c02MagDigits(r *RNG) (string, string) {
+	switch r.Intn(10) {
+	case 0, 1, 2: // a boundary value and its neighbours
+		b, _ := new(big.Int).SetString(Pick(r, c02MagBounds), 10)
+		off := Pick(r, []int{-2, -1, 0, 0, 1, 2, r.Range(-1000, 1000), r.Range(0, 1<<20)})
+		b.Add(b, big.NewInt(int64(off)))
+		return b.String(), "boundary"
+	case 3: // a run of one digit, or a power of ten
+		n := Pick(r, []int{15, 17, 18, 19, 19, 20, 21, 25, 38})
+		if r.Chance(1, 3) {
+			return "1" + strings.Repeat("0", n-1), "run"
+		}
+		return strings.Repeat(Pick(r, []string{"9", "9", "8", "1", "5"}), n), "run"
+	default: // n random digits, high leading digits more often
+		n := Pick(r, []int{15, 16, 17, 18, 18, 19, 19, 19, 19, 20, 20, 21, 22, 25, r.Range(26, 40)})
+		b := make([]byte, n)
+		for i := range b {
+			b[i] = byte('0' + r.Intn(10))
+		}
+		b[0] = Pick(r, []byte{'1', '2', '3', '4', '5', '6', '7', '8', '9', '9', '9', '9', '9', '9', '8', '1'})
+		if r.Chance(1, 4) { // close to the largest value of its length
+			for i := 0; i < n/2; i++ {
+				b[i] = '9'
+			}
+		}
+		return string(b), fmt.Sprintf("digits%d", min(n, 26))
+	}
+}
+
+// c02MagLiteral draws a quantity literal and its class.
+func c02MagLiteral(r *RNG) (string, string) {
+	switch r.Intn(10) {
+	case 0, 1, 2: // ordinary
+		return Pick(r, []string{fmt.Sprintf("%d.%02d", r.Intn(2000), r.Intn(100)), fmt.Sprintf("%d", r.Range(1, 5000)), fmt.Sprintf("-%d.%d", r.Intn(500), r.Intn(10)), "0", "1"}), "ordinary"
+	case 3: // tiny
+		return "0." + strings.Repeat("0", r.Range(10, 30)) + fmt.Sprintf("%d", r.Range(1, 99)), "tiny"
+	}
+	ds, class := c02MagDigits(r)
+	n := len(ds)
+	shape := r.Intn(10)
+	switch {
+	case shape < 4: // an integer
+	case shape < 6: // one or two decimals
+		k := r.Range(1, 2)
+		ds = ds[:n-k] + "." + ds[n-k:]
+		class += "/dec"
+	case shape < 8: // the point anywhere
+		k := r.Range(1, n-1)
+		ds = ds[:k] + "." + ds[k:]
+		class += "/point"
+	case shape < 9: // all digits after the point (the zero in front is a digit of the literal: keep the total length, or not)
+		if r.Bool() {
+			ds = ds[:n-1]
+		}
+		ds = "0." + ds
+		class += "/fraction"
+	default: // many decimals after a short integer part
+		k := r.Range(1, 3)
+		ds = ds[:k] + "." + ds[k:]
+		class += "/point"
+	}
+	if r.Chance(1, 6) { // leading zeros (the literal gets longer, or keeps its length and loses its last digits)
+		z := r.Range(1, 3)
+		if r.Bool() && !strings.Contains(ds[len(ds)-z-1:], ".") {
+			ds = ds[:len(ds)-z]
+		}
+		ds = strings.Repeat("0", z) + ds
+		class += "/zeros"
+	}
+	if r.Chance(1, 4) {
+		ds = "-" + ds
+		class += "/neg"
+	}
+	return ds, class
+}
+
+func c02GenMagJournal(r *RNG) (*Journal, []string) {
+	classes := map[string]bool{}
+	segs := []string{"Bank", "Cash", "Broker", "Main", "Sub", "X", "Salary", "Rent", "Tokens", "Épargne"}
+	accounts := []string{"Assets:" + Pick(r, segs), "Equity:" + Pick(r, []string{"Equity", "Opening", "E"})}
+	seen := map[string]bool{accounts[0]: true, accounts[1]: true}
+	for nacc := r.Range(2, 6); len(accounts) < nacc; {
+		a := Pick(r, typeNames)
+		for k := r.Range(1, 2); k > 0; k-- {
+			a += ":" + Pick(r, segs)
+		}
+		if r.Chance(1, 4) {
+			a = Pick(r, accounts) + ":" + Pick(r, segs)
+		}
+		if !seen[a] {
+			seen[a] = true
+			accounts = append(accounts, a)
+		}
+	}
+	coms := []string{Pick(r, []string{"CHF", "TOK", "SAT"})}
+	for _, c := range []string{"USD", "BTC", "WEI", "chf", "Ünit"} {
+		if r.Chance(1, 4) {
+			coms = append(coms, c)
+		}
+	}
+	base := 737000 + r.Intn(1500)
+	span := Pick(r, []int{0, 5, 40, 400})
+	daySet := map[int]bool{}
+	for k := r.Range(1, 6); k > 0; k-- {
+		daySet[base+r.Intn(span+1)] = true
+	}
+	var days []int
+	for d := range daySet {
+		days = append(days, d)
+	}
+	sortInts(days)
+	j := &Journal{}
+	openDay := days[0] - Pick(r, []int{0, 0, 1, 400})
+	for _, a := range accounts {
+		j.Dirs = append(j.Dirs, JDir{Kind: 'o', Date: openDay, Account: a})
+	}
+	isAL := func(a string) bool { return strings.HasPrefix(a, "Assets") || strings.HasPrefix(a, "Liabilities") }
+	qty := map[[2]string]decimal.Decimal{}
+	asserts := r.Chance(1, 3)
+	var last JBook
+	for _, day := range days {
+		for k := r.Range(1, 4); k > 0; k-- {
+			t := JDir{Kind: 't', Date: day, Desc: Pick(r, []string{"t", "transfer", "mint", "fee"})}
+			for b := Pick(r, []int{1, 1, 1, 2, 3}); b > 0; b-- {
+				cr := Pick(r, accounts)
+				dr := Pick(r, accounts)
+				if cr == dr {
+					dr = accounts[(indexOf(accounts, cr)+1)%len(accounts)]
+				}
+				q, class := c02MagLiteral(r)
+				bk := JBook{cr, dr, q, Pick(r, coms)}
+				if last.Qty != "" && r.Chance(1, 6) { // the same position again: the same literal, its negative, or a new literal
+					bk.Credit, bk.Debit, bk.Com = last.Credit, last.Debit, last.Com
+					switch r.Intn(3) {
+					case 0:
+						bk.Qty, class = last.Qty, "repeat"
+					case 1:
+						bk.Qty, class = strings.TrimPrefix("-"+last.Qty, "--"), "reverse"
+					}
+				}
+				classes[class] = true
+				last = bk
+				t.Bookings = append(t.Bookings, bk)
+				qd, _ := decimal.NewFromString(bk.Qty)
+				qty[[2]string{bk.Credit, bk.Com}] = qty[[2]string{bk.Credit, bk.Com}].Sub(qd)
+				qty[[2]string{bk.Debit, bk.Com}] = qty[[2]string{bk.Debit, bk.Com}].Add(qd)
+			}
+			j.Dirs = append(j.Dirs, t)
+		}
+		if asserts && r.Bool() { // the exact running totals of the A/L accounts at the end of the day
+			for _, a := range accounts {
+				for _, c := range coms {
+					if q, ok := qty[[2]string{a, c}]; ok && isAL(a) && r.Bool() {
+						j.Dirs = append(j.Dirs, JDir{Kind: 'a', Date: day, Balances: []JBal{{a, q.String(), c}}})
+						classes["assertion"] = true
+					}
+				}
+			}
+		}
+	}
+	var tags []string
+	for cl := range classes {
+		tags = append(tags, cl)
+	}
+	sortStrings(tags)
+	return j, tags
+}
+
+func runC02Magnitude(c *Ctx) {
+	const stream = "magnitude"
+	n := c.N(600, 8000)
+	dir := filepath.Join(c.WorkDir, stream)
+	os.MkdirAll(dir, 0o755)
+	var cases []*balCase
+	for i := 0; i < n; i++ {
+		if !c.Want(stream, i) {
+			continue
+		}
+		r := c.Rng(stream, i)
+		j, tags := c02GenMagJournal(r)
+		text, _ := j.Text()
+		cases = append(cases, &balCase{Idx: i, J: j, Text: text, F: GenBalFlags(r, j, "", BalGenOpts{}), Tags: tags})
+	}
+	parallelFor(len(cases), 16, func(k int) {
+		bc := cases[k]
+		path := filepath.Join(dir, fmt.Sprintf("c%d.knut", bc.Idx))
+		os.WriteFile(path, []byte(bc.Text), 0o644)
+		args := append([]string{"balance"}, bc.F.Args()...)
+		bc.Code, bc.Stdout, bc.Stderr = runKnut(c.KnutBin, 20*time.Second, nil, append(args, path)...)
+		os.Remove(path)
+	})
+	bt := c.NewBatch()
+	defer bt.Flush()
+	for _, bc := range cases {
+		bc := bc
+		c.Evals++
+		impl := bc.implOutcome()
+		in := bc.Input()
+		c.Class("c02mag/" + strings.Fields(impl)[0] + "/" + flagClass(bc.F))
+		c.Tag("magnitude-outcome:" + strings.Fields(impl)[0])
+		parts := map[string]bool{}
+		for _, t := range bc.Tags {
+			c.Class("c02mag/" + strings.Fields(impl)[0] + "/" + t)
+			for k, p := range strings.Split(t, "/") {
+				if k > 0 {
+					p = "/" + p
+				}
+				parts[p] = true
+			}
+		}
+		for p := range parts {
+			c.Tag("magnitude:" + p)
+		}
+		if bc.Idx < 2 {
+			c.Sample(map[string]any{"stream": stream, "args": strings.Join(bc.F.Args(), " "), "journal": bc.Text, "stdout": bc.Stdout})
+		}
+		bt.Add(func(model string) {
+			if model == "unsupported" {
+				c.Tag("model-unsupported")
+				return
+			}
+			if !c.Compare(stream, bc.Idx, "balance", in, impl, modelOutcomeCanon(model)) {
+				f := &c.Findings[len(c.Findings)-1]
+				if strings.HasPrefix(model, "ok ") {
+					f.Model = clip(UnHex(strings.TrimPrefix(model, "ok ")))
+				}
+				f.Impl = clip(fmt.Sprintf("exit %d\n%s\n%s", bc.Code, bc.Stdout, bc.Stderr))
+			}
+		}, "balance", bc.F.Wire(today()), bc.J.Wire())
+		bt.Add(func(spec string) {
+			if spec == "unsupported" {
+				return
+			}
+			want := modelOutcomeCanon(spec)
+			ok := impl == want
+			detail := ""
+			if !ok {
+				detail = fmt.Sprintf("exit %d", bc.Code)
+				if bc.Code == 0 && strings.HasPrefix(want, "ok ") {
+					detail += "; first difference to the ledger specification (real vs exact sums): " + firstDiffLine(canonTable(bc.Stdout), UnHex(strings.TrimPrefix(want, "ok ")))
+				} else {
+					detail += " " + clip(bc.Stderr) + "; ledger specification: " + strings.Fields(want + " -")[0]
+				}
+			}
+			c.Monitor(stream, bc.Idx, "report_equals_ledger", in, ok, detail)
+		}, "balance-spec", bc.F.Wire(today()), bc.J.Wire())
 	}
 }
